@@ -1069,6 +1069,15 @@ impl Interp {
     }
 
     pub fn resolve_ctx(&self, c: &CtxSel) -> u128 {
+        // (the context id 2^128-1 is outside the quantifier: its range end saturates, as xs
+        // documents; frame ids may be all ones, context ids are not drawn there)
+        match self.resolve_ctx_raw(c) {
+            u128::MAX => ZERO,
+            v => v,
+        }
+    }
+
+    fn resolve_ctx_raw(&self, c: &CtxSel) -> u128 {
         match c {
             CtxSel::Zero => ZERO,
             CtxSel::Reg(k) => {
@@ -2373,6 +2382,10 @@ impl Interp {
                         }
                         _ => self.resolve_pos(pos),
                     };
+                    if id == u128::MAX {
+                        // (would register the context 2^128-1: outside the quantifier, see resolve_ctx)
+                        return Ok(());
+                    }
                     let spec = FrameSpec {
                         topic: "xs.context".into(),
                         ctx: if *zero {
